@@ -895,7 +895,8 @@ def monitor_impl(im):
             for hh, es, ts, chk, act in im.exits:
                 if hh != h:
                     continue
-                want = (int(sc["act"][1:]), 0) if sc["act"][0] == "x" else (0, int(sc["act"][1:]))
+                hact = sc["act"].lstrip("F")
+                want = (int(hact[1:]), 0) if hact[0] == "x" else (0, int(hact[1:]))
                 if h in killed:
                     want = (0, killed[h])
                 if (es, ts) != want:
